@@ -95,7 +95,7 @@ def run(ck):
                    "outside the orthogonal matrices and invariant under three explicit rotations from both sides; that the average over all "
                    "orientations (Haar average of SO(3)) exists and has these properties is classical and not constructed in Lean"]
     extract(ck)
-    ck.prove(PROPS, extra_modules=["QV.Drive.C12"], also=["QV.Props.C12Weyl", "QV.Props.C12Average", "QV.Props.C12Pref", "QV.Props.C12Design", "QV.Props.C12DesignT8", "QV.Props.C12Widths"])
+    ck.prove(PROPS, extra_modules=["QV.Drive.C12"], also=["QV.Props.C12Weyl", "QV.Props.C12Average", "QV.Props.C12Pref", "QV.Props.C12Design", "QV.Props.C12DesignT8", "QV.Props.C12Widths", "QV.Props.C12Multilinear"])
     X3, Y3, Z3 = np.eye(3)
     quiet = lambda: contextlib.redirect_stdout(io.StringIO())
 
